@@ -33,7 +33,18 @@ def cases(draw):
     spec = draw(models.model_specs(names=draw(st.sampled_from(["free", "free", "ident"])), n_state=(1, 5), n_control=(0, 3), n_calib=(0, 2), depth=3,
                                    allow_string_form=True, allow_alt_dt=True, allow_wrap=True))
     pts = draw(models.point_sequences(spec, 6, dt=("pos", "neg"), extra_zero_dt=True))
-    return {"model": spec, "points": pts}
+    if len(spec["state"]) >= 2 and draw(st.integers(0, 5)) == 0:
+        # a user-defined function (implemented through Config.python_modules) shared by two outputs, so that CSE hoists it
+        inner = ["sym", draw(st.sampled_from(spec["state"] + spec["control"]))]
+        for s_ in spec["state"][:2]:
+            spec["trees"][s_] = ["add", spec["trees"][s_], ["ufun", ["mul", ["const", 1], inner]]]
+        spec["ufun"] = True
+        spec["string_form"] = []
+    # one point with integer-valued states: also handed over as an integer array through State.from_data
+    ip = dict(pts[0])
+    for s_ in spec["state"]:
+        ip[s_] = float(draw(st.sampled_from([1, 2, 3] if s_ in spec["positive"] else [-2, -1, 1, 2, 3])))
+    return {"model": spec, "points": pts, "int_point": ip}
 
 
 def case(spec, ctx):
@@ -86,6 +97,27 @@ def case(spec, ctx):
             sc = ref[s][1]
             if abs(results[True][i] - results[False][i]) > 2e-9 * max(1.0, sc):
                 ctx.fail("cse-on-vs-off", f"state {s!r}: {results[True][i]!r} vs {results[False][i]!r}", spec)
+
+    # the same values handed over as arrays of another dtype through from_data (only the shape is prescribed)
+    ip = spec.get("int_point")
+    if ip is not None:
+        ref = oracle.ref_model(m, ip)
+        p32 = dict(spec["points"][0])
+        for s in m["state"]:
+            p32[s] = float(np.float32(p32[s]))
+        ref32 = oracle.ref_model(m, p32)
+        for cse, model in built.items():
+            for label, pt, rf, dtype in (("int64", ip, ref, np.int64), ("float32", p32, ref32, np.float32)):
+                arr = np.array([[pt[s]] for s in states], dtype=dtype)
+                with ctx.formak(f"evaluate:from_data:{label}:cse={cse}", spec):
+                    out = model.model(pt[m["dt"]], model.State.from_data(arr), model.Control(**{c: pt[c] for c in m["control"]}))
+                vals = np.asarray(out.data, dtype=float).reshape(-1)
+                for i, s in enumerate(states):
+                    if not oracle.close(vals[i], rf[s][0], rf[s][1]):
+                        ctx.fail(f"value:from_data:{label}", f"state {s!r}: got {vals[i]!r} ref {float(rf[s][0])!r} for a {label} state array {arr.ravel().tolist()}", spec)
+        ctx.event("from_data_dtypes_checked")
+    if m.get("ufun"):
+        ctx.event("user_function_via_python_modules")
 
     total = models.total_symbols(m)
     decl = m["state"] != states or m["control"] != sorted(m["control"]) or m["calib"] != sorted(m["calib"])
